@@ -481,7 +481,7 @@ func c09r6(c *RC) {
 		}
 		return false
 	}, ErrFlowOpts{SentinelOK: []string{"sliceio.EOF"}}, map[string]string{})
-	c.Floor("combine/spill error sites", n, 12)
+	c.Floor("combine/spill error sites", n, 8)
 }
 
 func c09r7(c *RC) {
